@@ -254,8 +254,9 @@ def check_inert_fields(ctx, rule, prog, fields):
     functions (the calculation never sees them)."""
     fields = set(fields)
     readers = {}
+    from sa.astutil import walk_with_lambdas
     for mod, qual, fn in prog.all_funcs():
-        for node in walk_no_nested(fn):
+        for node in walk_with_lambdas(fn):
             if isinstance(node, ast.Attribute) and node.attr in fields \
                     and isinstance(node.ctx, ast.Load):
                 readers.setdefault((mod.name, qual), []).append((mod, node))
@@ -625,3 +626,104 @@ def check_res_string_parse(ctx, rule, prog):
                sorted(texts[2]) == sorted(["' '", '%s[-1]' % after]),
                "the insertion code is the trailing character, or ' ' (the raw blank column) when "
                "there is none (found %s)" % texts[2], lib, rets[0])
+
+
+# ------------------------------------------------- charge sum over all titratable groups
+def check_charge_sum_unconditional(ctx, rule, prog):
+    """ConformationContainer.calculate_charge adds the charge of *every*
+    titratable group: one loop over get_titratable_groups() whose body has no
+    condition, `continue` or `break`.  (The folding energy sums the same set:
+    all groups, non-titratable ones contributing exactly 0 - C10.R4; proton
+    linkage needs the two sums to range over the same groups.)"""
+    cc = prog.mod('conformation_container')
+    fn = cc.func('ConformationContainer.calculate_charge')
+    loops = [n for n in walk_no_nested(fn) if isinstance(n, ast.For)]
+    ok = False
+    why = '%d loops' % len(loops)
+    if len(loops) == 1:
+        lp = loops[0]
+        it_ok = isinstance(lp.iter, ast.Call) and last_attr(lp.iter) == 'get_titratable_groups' \
+            and norm(lp.iter.func.value) == 'self'
+        cond = [n for n in ast.walk(lp) if isinstance(n, (ast.If, ast.IfExp, ast.Continue, ast.Break,
+                                                         ast.Try, ast.While))]
+        accs = [s for s in lp.body if isinstance(s, ast.AugAssign) and isinstance(s.op, ast.Add)]
+        ok = it_ok and not cond and len(accs) == len(lp.body) and len(accs) >= 2
+        why = 'iterates %s; %d conditional constructs in the body' % (norm(lp.iter), len(cond))
+    ctx.ob(rule, 'charge-sum:every-titratable-group', ok,
+           'the total charge adds the folded and unfolded charge of every titratable group without '
+           'exception (%s)' % why, cc, loops[0] if loops else fn)
+
+
+# ------------------------------------------------- options are read-only
+def check_options_readonly(ctx, rule, prog):
+    """After parsing, the options object is shared by every input of one
+    invocation (run.main) and by every caller that reuses it: nothing may
+    store into it or mutate one of its containers, directly or through a
+    local alias (``x = options.chains or []; x.remove(...)``)."""
+    from sa.canon import canon, MUTATORS
+    allowed = {('lib', 'loadOptions'), ('lib', 'build_parser')}
+    sites = []
+    n_funcs = 0
+    for mod, qual, fn in prog.all_funcs():
+        if (mod.name, qual) in allowed:
+            continue
+        uses = any(isinstance(n, ast.Attribute) and n.attr == 'options' or
+                   isinstance(n, ast.Name) and n.id == 'options' for n in ast.walk(fn))
+        if not uses:
+            continue
+        n_funcs += 1
+        can = canon(fn)
+
+        def rooted(e, depth=0):
+            """the object denoted by ``e`` is the options object or reachable
+            from it by attribute/item access (not: computed from it by a call)"""
+            if depth > 6:
+                return False
+            if isinstance(e, ast.Attribute):
+                if e.attr == 'options' or (isinstance(e.value, ast.Name) and e.value.id == 'options'):
+                    return True
+                return rooted(e.value, depth + 1)
+            if isinstance(e, ast.Subscript):
+                return rooted(e.value, depth + 1)
+            if isinstance(e, ast.BoolOp):
+                return any(rooted(v, depth + 1) for v in e.values)
+            if isinstance(e, ast.IfExp):
+                return rooted(e.body, depth + 1) or rooted(e.orelse, depth + 1)
+            if isinstance(e, ast.Call) and isinstance(e.func, ast.Name) and e.func.id == 'alt':
+                return any(rooted(a, depth + 1) for a in e.args)
+            if isinstance(e, ast.Name):
+                if e.id == 'options' and e.id in func_params_of:
+                    return True
+                if e.id in can.opaque:
+                    for st in walk_no_nested(fn):
+                        if isinstance(st, ast.Assign) and len(st.targets) == 1 \
+                                and isinstance(st.targets[0], ast.Name) and st.targets[0].id == e.id \
+                                and rooted(can.expr(st.value), depth + 1):
+                            return True
+            return False
+        func_params_of = {a.arg for a in fn.args.args + fn.args.kwonlyargs}
+
+        def from_options(expr):
+            return rooted(can.expr(expr))
+
+        for node in walk_no_nested(fn):
+            if isinstance(node, ast.Call) and isinstance(node.func, ast.Attribute) \
+                    and node.func.attr in MUTATORS and from_options(node.func.value):
+                sites.append((mod, qual, node))
+            elif isinstance(node, (ast.Assign, ast.AugAssign, ast.Delete)):
+                tgts = node.targets if not isinstance(node, ast.AugAssign) else [node.target]
+                for t in tgts:
+                    if isinstance(t, (ast.Attribute, ast.Subscript)) and from_options(t.value) \
+                            or (isinstance(t, ast.Attribute)
+                                and (can.text(t.value) == 'options'
+                                     and 'options' in func_params_of
+                                     or can.text(t.value).endswith('.options'))):
+                        # `self.options = options` (storing the object itself) is not a mutation
+                        if isinstance(t, ast.Attribute) and t.attr == 'options':
+                            continue
+                        sites.append((mod, qual, node))
+    ctx.ob(rule, 'options:read-only-after-parsing', not sites,
+           'no function stores into the parsed options or mutates one of its containers, not even '
+           'through a local alias (%d functions that touch options examined; offenders: %s)'
+           % (n_funcs, ['%s.%s: %s' % (m.name, q, norm(n)[:60]) for m, q, n in sites]),
+           sites[0][0] if sites else prog.mod('lib'), sites[0][2] if sites else prog.mod('lib').tree)
